@@ -98,7 +98,7 @@ def check(run: Run) -> None:
     run.check(ok, "C08.R1", fi, fi.node, "unary operator has its operand's type (total lookup)", f"visit_UnaryOp records {[show(v)[:60] for _n, _k, v in st]}")
 
     # BinOp / IfExp decision lists
-    _decision(run, ctx, need("visit_BinOp"), {"left": "L", "right": "R"}, TYPES3, ["Div", "Add"], _spec_binop, "C08.R1")
+    _decision(run, ctx, need("visit_BinOp"), {"left": "L", "right": "R"}, TYPES3 + ["bool"], ["Div", "Add"], _spec_binop, "C08.R1")
     _decision(run, ctx, need("visit_IfExp"), {"body": "L", "orelse": "R"}, TYPES4, [None], _spec_ifexp, "C08.R1")
 
     # Subscript
